@@ -528,19 +528,28 @@ def e2e_groups() -> List[type]:
     from mloda.user import Feature
     from mloda_plugins.compute_framework.base_implementations.pyarrow.table import PyArrowTable
 
+    from mloda_plugins.compute_framework.base_implementations.pandas.dataframe import PandasDataFrame
+
     def mk(k: int) -> type:
         name = f"G20_{k}"
-        src = None if k in (0, 9) else f"G20_{k - 1}"      # G20_9: a second, independent root (its own object / worker)
+        # G20_9: a second, independent root (its own object / worker).  G20_5 <- G20_0 and G20_6 <- G20_5 live on PandasDataFrame:
+        # shape "switch" = the chain G20_0 (PyArrow) -> transform step -> G20_5 -> G20_6 (steps 0, 1, 2 of the linear plan model)
+        src = None if k in (0, 9) else "G20_0" if k == 5 else f"G20_{k - 1}"
+        kk = {5: 1, 6: 2}.get(k, k)
+        fwc = PandasDataFrame if k in (5, 6) else PyArrowTable
 
         def maybe_fail(kind: str) -> None:
             REC.ev(("call",))
-            if _E2E["fail_at"] == (k, kind):
+            if _E2E["fail_at"] == (kk, kind) and ((k in (0, 5, 6)) if _E2E.get("shape") == "switch" else (k not in (5, 6))):
                 raise RuntimeError(SENTINEL_MSG_WRAPPED)
 
         def calculate_feature(cls: Any, data: Any, features: Any) -> Any:
             maybe_fail("calc")
             if src is None:
                 return pa.table({name: [1, 2, 3]})
+            if k in (5, 6):
+                import pandas as pd
+                return pd.DataFrame({name: [int(v) + 10 ** kk for v in data[src]]})
             return pa.table({name: pc.add(data.column(src), 10 ** k)})
 
         def validate_input_features(cls: Any, data: Any, features: Any) -> Any:
@@ -554,7 +563,7 @@ def e2e_groups() -> List[type]:
         d: Dict[str, Any] = {"calculate_feature": classmethod(calculate_feature),
                              "validate_input_features": classmethod(validate_input_features),
                              "validate_output_features": classmethod(validate_output_features),
-                             "compute_framework_rule": classmethod(lambda cls: {PyArrowTable})}
+                             "compute_framework_rule": classmethod(lambda cls, _f=fwc: {_f})}
         if src is None:
             d["input_data"] = classmethod(lambda cls: DataCreator({name}))
         else:
@@ -563,7 +572,7 @@ def e2e_groups() -> List[type]:
         # reference) through the worker's command queue
         return mp_obs.register_class(type(name, (FeatureGroup,), d), name)
 
-    _groups.extend(mk(k) for k in (0, 1, 2, 9))
+    _groups.extend(mk(k) for k in (0, 1, 2, 9, 5, 6))
     return _groups
 
 
@@ -611,9 +620,18 @@ def run_e2e(exts: List[dict], nsteps: int, mode: str, fail_at: Optional[Tuple[in
         sink.reset()
     mp_obs.CUR["sink"] = sink
 
+    _E2E["shape"] = shape
+    top = f"G20_{nsteps - 1}" if shape != "switch" else ("G20_5" if nsteps == 2 else "G20_6")
+    fws_ = {PyArrowTable}
+    if shape == "switch":
+        from mloda_plugins.compute_framework.base_implementations.pandas.dataframe import PandasDataFrame
+        from harness.universe import load_transformers
+        load_transformers()
+        fws_ = {PyArrowTable, PandasDataFrame}
+
     def call() -> Any:
-        return mloda.run_all([Feature(f"G20_{nsteps - 1}")] + ([Feature("G20_9")] if shape == "two" else []),
-                             compute_frameworks={PyArrowTable},
+        return mloda.run_all([Feature(top)] + ([Feature("G20_9")] if shape == "two" else []),
+                             compute_frameworks=fws_,
                              plugin_collector=PluginCollector.enabled_feature_groups(set(groups)),
                              parallelization_modes={ParallelizationMode[mode]},
                              function_extender=objs if exts is not None else None, **kw)
@@ -631,7 +649,7 @@ def run_e2e(exts: List[dict], nsteps: int, mode: str, fail_at: Optional[Tuple[in
         else:
             res = call()
         if status == "ok":
-            value = sorted(json.dumps(r.to_pydict(), sort_keys=True) for r in res)
+            value = sorted(json.dumps(r.to_pydict() if hasattr(r, "to_pydict") else {c_: [int(v) for v in r[c_]] for c_ in r.columns}, sort_keys=True) for r in res)
     except Exception as e:  # noqa: BLE001
         exc = type(e).__name__
         exc_msg = str(e)[-160:]
@@ -657,7 +675,7 @@ def run_e2e(exts: List[dict], nsteps: int, mode: str, fail_at: Optional[Tuple[in
     for a in acts:
         m = re.fullmatch(r"G20_(\d)", a["fg"])
         k = int(m.group(1)) if m else 99
-        k = nsteps if k == 9 else k
+        k = nsteps if k == 9 else {5: 1, 6: 2}.get(k, k)
         if a["events"]:
             log.append([k, a["kind"], [list(e) for e in a["events"]]])
         if a["wraps"]:
@@ -915,7 +933,7 @@ def run(rep: vlib.Reporter, tier: str, seed: int) -> None:
     drng = random.Random(seed * 104729 + 2020)
     specs_d = e2e_specs(drng, 600 if big else 40)
     base_d: Dict[Tuple[str, int, str], Any] = {}
-    for shape in ("chain", "two"):
+    for shape in ("chain", "two", "switch"):
         for nsteps in (2, 3):
             for mode in MODES3:
                 b = run_e2e([], nsteps, mode, None, 0, shape)
@@ -928,7 +946,7 @@ def run(rep: vlib.Reporter, tier: str, seed: int) -> None:
     cd: List[dict] = []
     trios: List[Dict[str, dict]] = []
     for k, (exts, nsteps, fail_at) in enumerate(specs_d):
-        shape = "two" if k % 3 == 2 else "chain"
+        shape = "two" if k % 3 == 2 else "switch" if k % 3 == 1 else "chain"
         if shape == "two" and any(len(m_) == 1 and m_[0]["beh"] != "pass" for m_ in ([x for x in exts if h in x["hooks"]] for h in HOOKS)):
             # a single (bare, unprotected) raising extender makes the run fail; what the OTHER object has done by then depends on
             # the schedule -- the linear plan model covers failing runs on one object only
